@@ -25,13 +25,17 @@ Construct(sl, r) == /\ objs[sl] = None /\ Len(hist) < MaxLen
 Probe(r) == /\ Len(hist) < MaxLen /\ Len(hist) > 0
             /\ hist[Len(hist)][1] # "probe"            \* two probes in a row add nothing
             /\ hist' = Append(hist, <<"probe", "", r>>) /\ UNCHANGED objs
+\* use an object the way a transport does: its buffers are filled / grown in place
+Use(sl) == /\ objs[sl] # None /\ Len(hist) < MaxLen
+           /\ hist[Len(hist)][1] # "use"
+           /\ hist' = Append(hist, <<"use", sl, objs[sl]>>) /\ UNCHANGED objs
 Discard(sl) == /\ objs[sl] # None /\ Len(hist) < MaxLen
                /\ objs' = [objs EXCEPT ![sl] = None]
                /\ hist' = Append(hist, <<"discard", sl, objs[sl]>>)
 
 Next == \/ \E sl \in Slots, r \in Roles : Construct(sl, r)
         \/ \E r \in Roles : Probe(r)
-        \/ \E sl \in Slots : Discard(sl)
+        \/ \E sl \in Slots : Discard(sl) \/ Use(sl)
 Spec == Init /\ [][Next]_vars
 
 \* no action changes an object it does not name
